@@ -2,7 +2,7 @@
    Only ExtrOcamlBasic is used: bool/option/unit/list/prod/sumbool/sumor map to OCaml's own;
    N, positive, nat stay Coq datatypes; there is no Extract Constant. *)
 From Coq Require Import Extraction ExtrOcamlBasic.
-From MIO Require Import Base Gen RemoteAddr ResId Varint Decoder Queue QueueLog Driver.
+From MIO Require Import Base Gen RemoteAddr ResId Varint Decoder Queue QueueLog Driver Node.
 
 Extraction Language OCaml.
 Set Extraction Optimize.
@@ -17,4 +17,5 @@ Separate Extraction
   Decoder.decode Decoder.feed Decoder.parse Decoder.frames Decoder.try_decode Decoder.store_and_decoded_data
   Queue.qinit Queue.step Queue.run Queue.sstep Queue.srun Queue.spec_init Queue.spec_step Queue.spec_run
   QueueLog.same_multiset_b QueueLog.all_fifo_b
-  Driver.dinit Driver.drun Driver.dstep Driver.process Driver.exec_ucall Driver.lifecycle_ok_b Driver.count_ends.
+  Driver.dinit Driver.drun Driver.dstep Driver.process Driver.exec_ucall Driver.lifecycle_ok_b Driver.count_ends
+  Node.ninit Node.nstep Node.nrun.
